@@ -130,6 +130,7 @@ type Exec struct {
 	atomicOnly      map[string][]string
 	inAtomic        bool
 	unitLockRef     string
+	loopKinds       []string
 	sortPost        func(ex *Exec, st *State, reach string, v Val, nw string)
 }
 
@@ -391,13 +392,13 @@ func (ex *Exec) globalPtr(g *ssa.Global) Val {
 	if !ex.globalsInit[name] {
 		ex.globalsInit[name] = true
 		ex.sc.global(name, sInt)
-		ex.sc.assert(mkCmp(">", name, "0"))
+		ex.sc.axiom(mkCmp(">", name, "0"))
 		// distinct globals have distinct references and are allocated initially
 		a0 := ex.compInit(compAlloc, sArr(sInt, sBool))
-		ex.sc.assert(mkSelect(a0, name))
+		ex.sc.axiom(mkSelect(a0, name))
 		for other := range ex.globalsInit {
 			if other != name {
-				ex.sc.assert(mkNot(mkEq(name, other)))
+				ex.sc.axiom(mkNot(mkEq(name, other)))
 			}
 		}
 	}
@@ -560,7 +561,10 @@ func (ex *Exec) setReg(fr *Frame, v ssa.Value, val Val) {
 }
 
 func (ex *Exec) execInstr(fr *Frame, st *State, reach string, ins ssa.Instruction) {
+	savedI, savedF, savedR, savedG := ex.curInstr, ex.curFrame, ex.curReach, ex.sc.guard
+	defer func() { ex.curInstr, ex.curFrame, ex.curReach, ex.sc.guard = savedI, savedF, savedR, savedG }()
 	ex.curInstr, ex.curFrame, ex.curReach = ins, fr, reach
+	ex.sc.guard = reach
 	switch x := ins.(type) {
 	case *ssa.Alloc:
 		ex.execAlloc(fr, st, x)
